@@ -876,7 +876,7 @@ class AbstractQuerySet(object):
         if distinct_fields:
             clone._distinct_fields = distinct_fields
         else:
-            clone._distinct_fields = [x.column_name for x in self.model._partition_keys.values()]
+            clone._distinct_fields = [x.db_field_name for x in self.model._partition_keys.values()]
 
         return clone
 
